@@ -5,9 +5,15 @@
 package xmldsig
 
 //@ func Sign
-//@   property C07
+//@   property C07 C19
 //@   ghost pub crypto.PublicKey = nil
 //@   ghost matched bool = false
+//@   ghost stripped bool = false
+//@   ghost digested bool = false
+//@   on call RemoveElements(p, tag): stripped = stripped || (p == parent && tag == "Signature")
+//@   before call hashCanon(el, h): assert @enveloped_transform_old_signature_removed_before_the_reference_digest stripped && el == root && h == hash && !digested
+//@   on call hashCanon(_, _): digested = true
+//@   before call (*etree.Element).CreateElement(p, tag): assert @new_signature_goes_under_the_given_parent_after_the_digest p == parent && tag == "Signature" && digested
 //@   on call invoke crypto.Signer.Public(k) ret (p): pub = ite(k == privKey, p, pub)
 //@   on call x509tools.SameKey(a, b) ret (r): matched = (r && a == pub && b == certs[0].PublicKey)
 //@   before call finishSignature(_, _, _, k, cs, _): assert @signs_only_after_the_match matched && k == privKey && sameslice(cs, certs)
